@@ -50,14 +50,14 @@ package table
 //@   assumed
 //@   params nh, ctx, id, req
 //@   results val, err
-//@   ensures nh.nsync == old(nh.nsync) + 1 && nh.nstale == old(nh.nstale)
-//@   modifies nh.nsync
+//@   ensures nh.nsync == old(nh.nsync) + 1 && nh.nstale == old(nh.nstale) && nh.lastReq == req      // ghost: the query that was handed to the state machine
+//@   modifies nh.nsync, nh.lastReq
 //@ iface table.raftHandler.StaleRead
 //@   assumed
 //@   params nh, id, req
 //@   results val, err
-//@   ensures nh.nstale == old(nh.nstale) + 1 && nh.nsync == old(nh.nsync)
-//@   modifies nh.nstale
+//@   ensures nh.nstale == old(nh.nstale) + 1 && nh.nsync == old(nh.nsync) && nh.lastReq == req
+//@   modifies nh.nstale, nh.lastReq
 
 // ActiveTable.Put: empty / oversized key and oversized value are refused before anything is proposed;
 // otherwise exactly one proposal.
@@ -96,7 +96,7 @@ package table
 //@   ensures [C16.txn.limits] !(okOps(req.Success) && okOps(req.Failure)) ==> err != nil && t.nh.nprop == old(t.nh.nprop)
 //@   ensures [C10.txn.rev]   err == nil && t.nh.nprop == old(t.nh.nprop) + 1 ==> resp != nil && resp.Header != nil && resp.Header.Revision == world.lastRev
 //@   ensures err == nil && t.nh.nprop == old(t.nh.nprop) + 1 ==> fresh(resp) && fresh(resp.Header)
-//@   modifies t.nh.nprop, t.nh.nsync, t.nh.nstale, world.lastRev
+//@   modifies t.nh.nprop, t.nh.nsync, t.nh.nstale, t.nh.lastReq, world.lastRev
 //@ pure func roAllRange(req *regattapb.TxnRequest) bool = (forall j int :: 0 <= j && j < len(req.Success) ==> typeIs(req.Success[j].Request, *regattapb.RequestOp_RequestRange)) && (forall j int :: 0 <= j && j < len(req.Failure) ==> typeIs(req.Failure[j].Request, *regattapb.RequestOp_RequestRange))
 
 // validateRequestOps: nil exactly when every operation respects the limits
@@ -639,7 +639,23 @@ package table
 //@   results s, err
 //@   requires t != nil && t.nh != nil
 //@   ensures [C10.read.path] (linearizable ==> t.nh.nsync == old(t.nh.nsync) + 1 && t.nh.nstale == old(t.nh.nstale)) && (!linearizable ==> t.nh.nstale == old(t.nh.nstale) + 1 && t.nh.nsync == old(t.nh.nsync))
-//@   modifies t.nh.nsync, t.nh.nstale
+//@   ensures [C10.read.req] t.nh.lastReq == req      // the query reaches the state machine as it was given
+//@   modifies t.nh.nsync, t.nh.nstale, t.nh.lastReq
+
+// the two index queries ask for what their names say: the follower's resume point is the recorded
+// LEADER index, the replication server's upper bound is the LOCAL (applied) index
+//@ func (*ActiveTable).LeaderIndex
+//@   maypanic
+//@   requires t != nil && t.nh != nil
+//@   ensures [C05.query.leader+C03] typeIs(t.nh.lastReq, fsm.LeaderIndexRequest)
+//@   ensures [C05.query.path] (linearizable ==> t.nh.nsync == old(t.nh.nsync) + 1 && t.nh.nstale == old(t.nh.nstale)) && (!linearizable ==> t.nh.nstale == old(t.nh.nstale) + 1 && t.nh.nsync == old(t.nh.nsync))
+//@   modifies t.nh.nsync, t.nh.nstale, t.nh.lastReq
+
+//@ func (*ActiveTable).LocalIndex#query
+//@   maypanic
+//@   requires t != nil && t.nh != nil
+//@   ensures [C06.query.local+C05] typeIs(t.nh.lastReq, fsm.LocalIndexRequest)
+//@   modifies t.nh.nsync, t.nh.nstale, t.nh.lastReq
 
 // Snapshot (what a follower restores from): always through the consensus read path - a snapshot
 // served by a lagging replica would move a follower's content and leader index backwards
@@ -647,7 +663,7 @@ package table
 //@   maypanic
 //@   requires t != nil && t.nh != nil && ctx != nil
 //@   ensures [C05.snapshot.sync+C07+C10] t.nh.nsync == old(t.nh.nsync) + 1 && t.nh.nstale == old(t.nh.nstale)
-//@   modifies t.nh.nsync, t.nh.nstale
+//@   modifies t.nh.nsync, t.nh.nstale, t.nh.lastReq
 // Range / Iterator: the consistency level requested by the caller decides the read path
 //@ func (*ActiveTable).Range
 //@   maypanic
@@ -655,11 +671,11 @@ package table
 //@   requires t != nil && t.nh != nil && req != nil
 //@   ensures [C10.range.path] len(req.Key) <= 1024 && len(req.RangeEnd) <= 1024 ==> (req.Linearizable ==> t.nh.nsync == old(t.nh.nsync) + 1 && t.nh.nstale == old(t.nh.nstale)) && (!req.Linearizable ==> t.nh.nstale == old(t.nh.nstale) + 1 && t.nh.nsync == old(t.nh.nsync))
 //@   ensures [C16.range.limits] len(req.Key) > 1024 || len(req.RangeEnd) > 1024 ==> err == serrors.ErrKeyLengthExceeded && t.nh.nsync == old(t.nh.nsync) && t.nh.nstale == old(t.nh.nstale)
-//@   modifies t.nh.nsync, t.nh.nstale
+//@   modifies t.nh.nsync, t.nh.nstale, t.nh.lastReq
 //@ func (*ActiveTable).Iterator
 //@   maypanic
 //@   results s, err
 //@   requires t != nil && t.nh != nil && req != nil
 //@   ensures [C16.iter.limits] len(req.Key) > 1024 || len(req.RangeEnd) > 1024 ==> err == serrors.ErrKeyLengthExceeded && t.nh.nsync == old(t.nh.nsync) && t.nh.nstale == old(t.nh.nstale)      // the streamed read refuses what the unary read refuses
 //@   ensures [C10.iter.path] len(req.Key) <= 1024 && len(req.RangeEnd) <= 1024 ==> (req.Linearizable ==> t.nh.nsync == old(t.nh.nsync) + 1 && t.nh.nstale == old(t.nh.nstale)) && (!req.Linearizable ==> t.nh.nstale == old(t.nh.nstale) + 1 && t.nh.nsync == old(t.nh.nsync))
-//@   modifies t.nh.nsync, t.nh.nstale
+//@   modifies t.nh.nsync, t.nh.nstale, t.nh.lastReq
